@@ -57,11 +57,12 @@ CHECKS = {
         'DEFB/DEFM/DEFW/DEFS range functions and the code walk (statements are consecutive, cover exactly, hold the snapshot bytes; 64K wrap, RST arguments), skool2bin sequential placement, and the composition image_restored '
         '(partial under NoGap; the full statement is refuted by the known i-block-gap finding). Instruction text<->bytes enters as a hypothesis discharged by C02; comments/ASM directives e2e only.',
    note=TB + 'hand models Model/CtlTiling, CtlLex, Statements, BinWriter tied by correspondence (5.6k cases/run); two known findings', ref='§8 C01'),
- 'C02': dict(cat='proof', technique='Lean 4 theorems (digit-list induction, regex-scanner models) + model/implementation correspondence + complete e2e sweep of all opcode slots',
-   text='24 theorems at operand level for all values/bases/cases: number rendering <-> parsing round trips (binary, char, decimal, hex, negative), operand splitting on unquoted commas, '
-        'DEFB/DEFM/DEFW/DEFS statement round trips, relative-jump encoding for all addresses incl. 64K wrap, index offsets, converse direction for operands. '
-        'The 7x256 opcode tables and per-mnemonic dispatch are not modelled: part 1 over them is a complete e2e enumeration (all slots x operand edge sets x boundary addresses x bases; 1.39M cases per quick run), not a theorem.',
-   note=TB + 'hand models Model/OpText, AsmEval tied by correspondence (72k ops/run); opcode tables covered by exhaustive e2e only', ref='§8 C02'),
+ 'C02': dict(cat='proof', technique='Lean 4 theorems: operand-level round trips by induction/arithmetic for all values, bases and cases; INSTRUCTION level: the disassembler tables are dumped from the real Disassembler objects each run (translate/gen_c02.py), a function-by-function model of Assembler._assemble and every encoder, a slot-level checker kernel-decided over all slots x option sets x cases and lifted to every operand value by rule lemmas + model/implementation correspondence + complete e2e enumeration',
+   text='31 theorems. Operand level (24): number rendering <-> parsing round trips (binary, char, decimal, hex, negative), operand splitting on unquoted commas, DEFB/DEFM/DEFW/DEFS statement round trips, relative-jump encoding for all addresses incl. 64K wrap, index offsets, converse direction for operands. '
+        'Instruction level (7): disassembler_total; instruction_roundtrip — for every configuration (all 256 additional-opcode subsets, case, wrap, hex/decimal), base letters, memory and address, if the disassembler model emits a non-variant instruction then the assembler model gives back exactly its bytes (all seven tables, every operand value, 64K cuts); '
+        'variant_roundtrip (@bytes list parses back and its DEFB assembles to it); instruction_bytes / instruction_converse (re-decoding under any configuration and re-assembling gives the same bytes); rule_converse_partial (any spelling of the numeric operands that keeps shape and value). '
+        'Kernel coverage: 1786 slots x 2256 option-set candidates x {upper, lower} = 4512 slot checks. The converse over ALL accepted spellings of whole instructions (leading +, LD B,(5), ignored third operands) stays e2e; base m on RST/IN A,(n)/OUT (n),A is excluded by hypothesis (known C01 finding). One genuine defect found here was repaired (e3630db: JR PO/PE/P/M accepted).',
+   note=TB + 'tables regenerated from the real Disassembler each run (Gen/C02Tables.lean); hand models Model/OpText, AsmEval, Statements, InstrDecode, AsmInstr, DisText tied by correspondence (226k ops/run incl. a malformed stream compared by bytes or kind of exception); e2e 1.5M cases/run', ref='§8 C02'),
  'C06': dict(cat='proof', technique='Lean 4: kernel-decided equality of the C and Python dispatch tables (translated from both sources each run) + per-closure equivalence contended/plain by a generic tactic + lock-step differential execution of 4 implementations',
    text='The seven C dispatch tables equal the seven Python tables slot by slot (1792 rows, decide +kernel on regenerated definitions); CMIOSimulator dispatches to the same closure as Simulator for every opcode sequence; '
         'one step of the Python contended simulator agrees with the plain one on registers, flags, memory, PC, IFF, IM, HALT and port sequences for every closure (BIT n,(HL): F bits 5/3 uncompared, the property\'s own MEMPTR exemption; HALT and LD A,I/R under the decidable frame-layout condition CfgOk, proved for both machines); '
